@@ -104,7 +104,8 @@ func main() {
 	}
 	e.Debug = *debug
 	if *harness != "" {
-		rep := e.Explore(*harness, *workers, []string{"z3-new", "cvc5"}, 20000, 10*time.Minute, 10)
+		e.Prop = prop
+		rep := e.Explore(*harness, *workers, []string{"cvc5", "z3-new"}, 20000, 10*time.Minute, 10)
 		printReport(rep)
 		return
 	}
@@ -153,6 +154,7 @@ type candidate struct {
 
 func runProperty(e *sym.Engine, spec *propSpec, tier string, seed int, workers int) int {
 	start := time.Now()
+	e.Prop = spec.ID
 	for _, k := range loadKnown() {
 		if k.Property == spec.ID {
 			e.Known[k.Finding] = true
@@ -161,7 +163,7 @@ func runProperty(e *sym.Engine, spec *propSpec, tier string, seed int, workers i
 	budget := spec.BudgetQuick
 	samples := 12
 	queryMs := 20000
-	solvers := []string{"z3-new", "cvc5"}
+	solvers := []string{"cvc5", "z3-new"}
 	if spec.CVC5First {
 		solvers = []string{"cvc5", "z3-new"}
 	}
@@ -183,7 +185,7 @@ func runProperty(e *sym.Engine, spec *propSpec, tier string, seed int, workers i
 	for _, rep := range reports {
 		for _, v := range rep.Violations {
 			cands = append(cands, candidate{rep.Harness, v})
-			cases = append(cases, sym.MakeCase(rep.Harness, tier, v.Model))
+			cases = append(cases, sym.MakeCase(rep.Harness, tier, spec.ID, v.Model))
 		}
 	}
 	nViol := len(cases)
@@ -195,7 +197,7 @@ func runProperty(e *sym.Engine, spec *propSpec, tier string, seed int, workers i
 	for _, rep := range reports {
 		for _, s := range rep.Samples {
 			srefs = append(srefs, sampleRef{rep.Harness, s})
-			cases = append(cases, sym.MakeCase(rep.Harness, tier, s.Model))
+			cases = append(cases, sym.MakeCase(rep.Harness, tier, spec.ID, s.Model))
 		}
 	}
 	var results []sym.ReplayResult
